@@ -124,7 +124,12 @@ func build(base string, startLoops bool) (a *asm, err error) {
 	if err = kid.SetIDs([]string{"10.0.0.1", "cid-a"}); err != nil {
 		return nil, err
 	}
-	a.clients, err = client.NewStorage(ctx, &client.StorageConfig{Logger: srv.Discard, Clock: timeutil.SystemClock{}, DHCP: leaseDHCP{}, InitialClients: []*client.Persistent{kid}, RuntimeSourceDHCP: true})
+	spare := &client.Persistent{Name: "spare", BlockedServices: &filtering.BlockedServices{Schedule: schedule.EmptyWeekly()}, Upstreams: []string{"9.9.9.9"}}
+	spare.UID[0], spare.UID[15] = 2, 9
+	if err = spare.SetIDs([]string{"10.9.9.9", "cid-spare"}); err != nil {
+		return nil, err
+	}
+	a.clients, err = client.NewStorage(ctx, &client.StorageConfig{Logger: srv.Discard, Clock: timeutil.SystemClock{}, DHCP: leaseDHCP{}, InitialClients: []*client.Persistent{kid, spare}, RuntimeSourceDHCP: true})
 	if err != nil {
 		return nil, err
 	}
@@ -343,6 +348,10 @@ var operations = []opBody{
 		c, b := a.call("POST", "/control/clients/delete", `{"name":"kid"}`)
 		return expect2xx(c, b, "clients/delete")
 	}},
+	{"clients-delete-other-client", func(a *asm) string {
+		c, b := a.call("POST", "/control/clients/delete", `{"name":"spare"}`)
+		return expect2xx(c, b, "clients/delete")
+	}},
 	{"clients-list", func(a *asm) string {
 		c, b := a.call("GET", "/control/clients", "")
 		return expect2xx(c, b, "clients")
@@ -391,6 +400,10 @@ var operations = []opBody{
 	}},
 	{"blocked-services-update", func(a *asm) string {
 		c, b := a.call("PUT", "/control/blocked_services/update", `{"ids":["9gag","facebook"],"schedule":{"time_zone":"UTC"}}`)
+		return expect2xx(c, b, "blocked_services/update")
+	}},
+	{"blocked-services-update-without-schedule", func(a *asm) string {
+		c, b := a.call("PUT", "/control/blocked_services/update", `{"ids":["9gag"]}`)
 		return expect2xx(c, b, "blocked_services/update")
 	}},
 	{"protection-pause", func(a *asm) string {
